@@ -149,12 +149,12 @@ pub fn collect_sources<FS: FileSystem>(
         let parse = db.parse(file_id);
 
         let file_path = fs.path_for_file(&file_id);
-        let file_dir = file_path.parent().expect("file dir not found");
         file_set.insert(file_id, file_path.clone());
 
         let mut include_map = HashMap::new();
         // FIXME
-        let mut include_dir_list = vec![file_dir];
+        // (a path without a parent, such as `/`, has no directory of its own to search)
+        let mut include_dir_list: Vec<FilePath> = file_path.parent().into_iter().collect();
         if let Ok(include_dir) = env::var("INCLUDE_DIR") {
             include_dir_list.push(FilePath(PathBuf::from_str(&include_dir).unwrap()));
         }
